@@ -15,7 +15,12 @@ RULE = ("Programs generated as ASTs by construction (1-5 predicates of arity 0-2
         "rendered to text and evaluated by get_evaluatable(None).create_from(...).evaluate(); oracle = independent "
         "possible-world enumeration with exact rationals. Non-trivial: >=2 relevant probabilistic choices and a "
         "query with reference probability strictly between 0 and 1 (or inconsistent evidence with >=1 choice). "
-        "Distinct = distinct program AST.")
+        "Distinct = distinct program AST. Families mixed in: body disjunctions, a binary relation called with "
+        "different variable-sharing patterns, densely mutually recursive propositional programs. Sub-check 'cli' runs "
+        "the same oracle through tasks.probability.execute on a model file (the command-line entry point, evidence "
+        "propagation on/off); sub-check 'small-exhaustive' enumerates all propositional programs '0.3::a. 0.6::b.' + "
+        "1-3 rules over heads p,q and bodies of 1-2 literals from a,b,p,q,\\+a,\\+b (98 854 programs in the thorough tier, "
+        "every 40th in the quick tier).")
 ASSUMPTIONS = ["reference enumerator (pbt/ref/semantics.py) is the semantics; float tolerance 1e-9",
                "programs with more relevant choices than the tier bound are skipped and counted as inconclusive"]
 
@@ -61,6 +66,54 @@ KNOWN_CLASSES = {
     "neg_under_cycle": lambda case, failure: gp.neg_under_active_cycle(case["prog"]),
     "negcycle_fp": lambda case, failure: gp.neg_on_cyclic_goal_under_active_cycle(case["prog"]),
 }
+
+# ------------------------------------------------------------------------------------------------ CLI entry point
+
+def check_cli(case):
+    """The same oracle through the entry point of the `problog` command line (tasks.probability.execute on a
+    model file), with the options the CLI passes by default (evidence propagation on)."""
+    import os
+    import tempfile
+    from problog.tasks import probability
+
+    prog = case["prog"]
+    feats = gp.features(prog)
+    try:
+        ref = sem.evaluate(prog, max_choices=10, max_worlds=1 << 14)
+    except sem.TooLarge:
+        return Outcome(inconclusive="oversize", features=feats)
+    src = sem.render_program(prog)
+    fd, fn = tempfile.mkstemp(suffix=".pl")
+    try:
+        with os.fdopen(fd, "w") as f:
+            f.write(src)
+        plrun.reset_state()
+        with plrun.captured_output():
+            ok, result = probability.execute(fn, propagate_evidence=case.get("propagate", True))
+    finally:
+        try:
+            os.unlink(fn)
+        except OSError:
+            pass
+    if ok:
+        res = ("ok", plrun.norm_result(result))
+    else:
+        if isinstance(result, plrun.CaseTimeout):
+            raise result
+        res = plrun.classify_exception(result)
+    if res[0] == "resource":
+        return Outcome(inconclusive=res[1], features=feats)
+    failure = refcmp.compare_with_ref(ref, res)
+    nontrivial = (ref.n_choices >= 2 and any(v is not None and 0 < v < 1 for v in ref.probs.values())) or \
+                 (ref.inconsistent and ref.n_choices >= 1)
+    feats.add("cli:propagate_evidence=%s" % case.get("propagate", True))
+    return Outcome(nontrivial=nontrivial, features=sorted(feats), failure=failure,
+                   classes=["rejected-inconsistent" if ref.inconsistent else "answered"], sample={"program": src})
+
+
+def _cli_strategy():
+    return st.tuples(gp.programs(), st.booleans()).map(lambda t: {"prog": t[0], "propagate": t[1]})
+
 
 # ------------------------------------------------------------------------------------------------ exhaustive family
 
@@ -108,6 +161,8 @@ _check10 = make_check(10)
 
 SUBCHECKS = [
     SubCheck("default", _check10, strategy=_strategy, budget={"quick": 4000, "thorough": 60000},
+             timeout={"quick": 5, "thorough": 20}, render=render),
+    SubCheck("cli", check_cli, strategy=_cli_strategy, budget={"quick": 800, "thorough": 10000},
              timeout={"quick": 5, "thorough": 20}, render=render),
     SubCheck("small-exhaustive", check_small, enumerate=enumerate_small, exhaustive_tiers=("thorough",), timeout={"quick": 5, "thorough": 20},
              exhaustive="all programs '0.3::a. 0.6::b.' + 1-3 rules (heads p,q; bodies of 1-2 literals over a,b,p,q,\\+a,\\+b) + "
